@@ -119,6 +119,19 @@ def work(args):
         desc, files, feats = suitcases.make_case(seed, index, big=(kind == "big"), depth=3 if kind == "deep" else 2)
     except suitcases.ChildFailed:
         return None
+    if kind == "bigfile":
+        # a digest / size / payload taken from a file just over a whole number of 64 KiB blocks (block-wise readers)
+        import random
+        rng = random.Random(f"{seed}:{index}:bigfile")
+        size = rng.choice([65537, 65536 + 4096, 131073, 200000, 65535, 65536, 131072])
+        files["bigfile.bin"] = bytes((i * 131 + 7) % 256 for i in range(size))
+        alg = rng.choice(["cose-alg-sha-256", "cose-alg-sha-384", "cose-alg-sha-512", "cose-alg-shake128", "cose-alg-shake256"])
+        m = desc["SUIT_Envelope_Tagged"]["suit-manifest"]
+        m["suit-validate"] = [{"suit-directive-override-parameters": {
+            "suit-parameter-image-digest": {"suit-digest-algorithm-id": alg, "suit-digest-bytes": {"file": "bigfile.bin"}},
+            "suit-parameter-image-size": {"file": "bigfile.bin"}}}]
+        if rng.random() < 0.5:
+            desc["SUIT_Envelope_Tagged"].setdefault("suit-integrated-payloads", {})["#bigfile"] = "bigfile.bin"
     if kind == "hexname":
         # a payload file whose name consists of hex digits only
         import random
@@ -148,6 +161,7 @@ def run(tier: str, seed: int) -> int:
     n = 1000 if tier == "quick" else 20000
     jobs = [(seed, i, "lib") for i in range(n)] + [(seed, 5 * 10 ** 6 + i, "deep") for i in range(n // 5)]
     jobs += [(seed, 6 * 10 ** 6 + i, "hexname") for i in range(20 if tier == "quick" else 300)]
+    jobs += [(seed, 9 * 10 ** 6 + i, "bigfile") for i in range(14 if tier == "quick" else 120)]
     jobs += [(seed, 7 * 10 ** 6 + i, "big") for i in range(6 if tier == "quick" else 60)]
     known = {e["id"] for e in Findings().known(PROP)}
     outs = common.pmap(work, jobs, chunk=8)
